@@ -23,7 +23,7 @@ TECHNIQUE = 'descriptor/audit monitor (/proc/self/fd diff + sys.addaudithook + R
 RULE = ('base files from vlib.model.gen_file; corruption kinds x API x ownership x index; non-trivial = the API raised, or a '
         'close->read->close history ran; distinct = (corruption kind, outcome raised/returned + exception type, API, path|stream, index kind)')
 ASSUMPTIONS = ['Linux /proc/self/fd is authoritative for open descriptors', 'the harness closes all files it opens itself (with-blocks)']
-REQUIRED = ['big_file_calls', 'suspended_iterators_across_close', 'defragment_calls', 'caller_index_streams_checked', 'writer_reuse_blocks', 'api_calls', 'api_raised', 'fd_scans', 'library_open_events', 'after_close_ops', 'caller_streams_checked', 'writer_sessions',
+REQUIRED = ['writes_after_with_block', 'big_file_calls', 'suspended_iterators_across_close', 'defragment_calls', 'caller_index_streams_checked', 'writer_reuse_blocks', 'api_calls', 'api_raised', 'fd_scans', 'library_open_events', 'after_close_ops', 'caller_streams_checked', 'writer_sessions',
             'index_opened_by_library', 'double_close']
 N = {'quick': 40, 'thorough': 1000}
 
@@ -161,7 +161,7 @@ def run_case(case, ctx):
                 continue     # an index beside the file is only discovered for paths
             if own in ('pathlib', 'fileobj', 'rawfileobj') and (case['s'] + len(ik) + len(own)) % 3:
                 continue     # sampled: these two ownership kinds triple the work otherwise
-            for api in ('read', 'read_metadata', 'open-close', 'with', 'open-history', 'ctor-keep-open'):
+            for api in ('read', 'read_metadata', 'open-close', 'with', 'open-history', 'ctor-keep-open', 'read-bad-memmap-dir'):
                 ctx.evaluation()
                 info = {'corrupt': case['corrupt'], 'index': ik, 'own': own, 'api': api, 'case': case}
                 fdmon.take_opens()
@@ -277,6 +277,14 @@ def run_case(case, ctx):
                         pass
                     ctx.count('writer_sessions')
                     scan(ctx, 'writer-after-with', info)
+                    # using the writer after its with-block: it may raise, it must not quietly open files again and keep them
+                    if own == 'path':
+                        try:
+                            w.write_segment([ChannelObject('g', 'late', np.arange(2))])
+                        except Exception:
+                            pass
+                        ctx.count('writes_after_with_block')
+                        scan(ctx, 'writer-write_segment-after-with', info)
                     for s in streams:
                         ctx.count('caller_streams_checked')
                         if s.closed:
@@ -355,6 +363,9 @@ def one_call(ctx, TdmsFile, api, own, path, bad, info, fresh_vals, rng, ik):
                 for c in g.channels():
                     c[:]
             tf.close()
+        elif api == 'read-bad-memmap-dir':
+            # an option that makes the read fail (the directory for memory-mapped data does not exist)
+            tf = TdmsFile.read(arg, raw_timestamps=True, memmap_dir=os.path.join(os.path.dirname(path), 'no-such-dir'))
         elif api == 'ctor-keep-open':
             # the constructor's documented keep_open flag: all data is read and the file stays open until close() / the with-block ends
             if rng.random() < 0.5:
@@ -444,10 +455,10 @@ def one_call(ctx, TdmsFile, api, own, path, bad, info, fresh_vals, rng, ik):
         raised = ex
         ctx.count('api_raised')
         outcome = 'raised:' + type(ex).__name__
-        if api in ('read', 'read_metadata') or tf is not None:
+        if api in ('read', 'read_metadata', 'read-bad-memmap-dir') or tf is not None:
             # read/read_metadata raised, or an open()ed file was being closed/used: nothing may stay open
             keep = ()
-            if api in ('read', 'read_metadata'):
+            if api in ('read', 'read_metadata', 'read-bad-memmap-dir'):
                 scan(ctx, '%s-raised/%s' % (api, own), info, expect_open=keep)
             else:
                 if tf is not None:
